@@ -211,7 +211,7 @@ func expandSet(s string) []uint32 {
 }
 
 func runC04(r *ev.Run) {
-	r.SetRule("histories of APPEND / COPY / MOVE / expunge-of-the-highest-UID / failing commands / connector additions / DELETE+CREATE of the same name (also in bursts within one second) / UIDVALIDITY bump / clean server restarts; after every step every mailbox is observed through a fresh EXAMINE (UIDVALIDITY, UIDNEXT, UID and marker of every message) and fed to an online monitor: per (name, UIDVALIDITY) a UID denotes one message forever, every newly seen UID exceeds all UIDs seen before, UIDNEXT exceeds every assigned UID and never decreases; APPENDUID / COPYUID are where the messages are then found; per name UIDVALIDITY only changes on re-creation/bump and then to a strictly greater value. distinct = distinct (operation, outcome, context) tuples")
+	r.SetRule("histories of APPEND / COPY / MOVE / expunge-of-the-highest-UID / failing commands / connector additions / DELETE+CREATE of the same name (also in bursts within one second, also re-created by RENAME INBOX <name>) / UIDVALIDITY bump / clean server restarts; after every step every mailbox is observed through a fresh EXAMINE (UIDVALIDITY, UIDNEXT, UID and marker of every message) and fed to an online monitor: per (name, UIDVALIDITY) a UID denotes one message forever, every newly seen UID exceeds all UIDs seen before, UIDNEXT exceeds every assigned UID and never decreases; APPENDUID / COPYUID are where the messages are then found; per name UIDVALIDITY only changes on re-creation/bump and then to a strictly greater value. distinct = distinct (operation, outcome, context) tuples")
 	r.Assume("restarts are clean close+reopen of the same data directories in this check (process kills are exercised by C07)")
 
 	hist := r.Pick(150, 1500)
@@ -417,13 +417,30 @@ func c04History(r *ev.Run, label string, steps int) {
 				set = fmt.Sprintf("%d:%d", src.Msgs[a-1].UID, src.Msgs[b-1].UID)
 			}
 
+			// a message set is a set: the same messages named one by one in any order (or as a reversed range)
+			shape := "range"
+
+			if b > a && rng.Intn(3) == 0 {
+				var parts []string
+
+				for _, i := range rng.Perm(b - a + 1) {
+					if strings.HasPrefix(verb, "UID") {
+						parts = append(parts, fmt.Sprint(src.Msgs[a-1+i].UID))
+					} else {
+						parts = append(parts, fmt.Sprint(a+i))
+					}
+				}
+
+				set, shape = strings.Join(parts, ","), "unordered-list"
+			}
+
 			if rng.Intn(8) == 0 {
 				dst = "NoSuchMailbox"
 			}
 
 			res := c.c.Cmdf("%s %s %s", verb, set, dst)
 			m.logf("[%s] %s %s %s -> %s [%s] %v", box, verb, set, dst, res.Status, res.Code, res.Kinds())
-			r.Distinct(fmt.Sprintf("%s same=%v %s%s", verb, dst == box, res.Status, m.after))
+			r.Distinct(fmt.Sprintf("%s %s same=%v %s%s", verb, shape, dst == box, res.Status, m.after))
 
 			code := res.Code
 			for _, u := range res.Untagged {
@@ -465,7 +482,7 @@ func c04History(r *ev.Run, label string, steps int) {
 						}
 					}
 
-					r.Distinct("COPYUID verified n=" + lenClass(len(from)))
+					r.Distinct("COPYUID verified n=" + lenClass(len(from)) + " " + shape)
 				}
 			}
 
@@ -523,7 +540,7 @@ func c04History(r *ev.Run, label string, steps int) {
 				times = 2 + rng.Intn(12)
 			}
 
-			ok := true
+			ok, viaInbox := true, false
 
 			for i := 0; i < times && ok; i++ {
 				d, alive := c.cmdRetry("DELETE " + box)
@@ -532,13 +549,20 @@ func c04History(r *ev.Run, label string, steps int) {
 				}
 
 				// Deleting the mailbox this session has selected ends the session with BYE: reconnect.
-				cr, alive := c.cmdRetry("CREATE " + box)
+				// The name comes back by CREATE, or by RENAME INBOX (which creates it and moves INBOX's messages there).
+				recreate := "CREATE " + box
+				if rng.Intn(3) == 0 {
+					recreate = "RENAME INBOX " + box
+					viaInbox = true
+				}
+
+				cr, alive := c.cmdRetry(recreate)
 				if !alive {
 					return
 				}
 
 				ok = d.OK() && cr.OK()
-				m.logf("DELETE %s -> %s; CREATE -> %s %s", box, d.Status, cr.Status, cr.Text)
+				m.logf("DELETE %s -> %s; %s -> %s %s", box, d.Status, recreate, cr.Status, cr.Text)
 			}
 
 			if !ok {
@@ -548,7 +572,7 @@ func c04History(r *ev.Run, label string, steps int) {
 
 			// The remote's mailbox id changed with the re-creation.
 			m.box(box).expectNew = true
-			r.Distinct(fmt.Sprintf("delete-create burst=%s%s", lenClass(times), m.after))
+			r.Distinct(fmt.Sprintf("delete-create burst=%s via-rename-inbox=%v%s", lenClass(times), viaInbox, m.after))
 
 		case k < 90: // UIDVALIDITY bump
 			u := c.s.Users[0]
